@@ -180,6 +180,34 @@ def null_attr_kw(kw: str, inv: bool, hoh: bool, n0: bool, n1: bool, n2: bool, a:
     return got == want
 
 
+TEXTS = ["a", "ab", "b", "B", "abc"]
+
+
+def list_kw_text(kw: str, inv: bool, k: int) -> bool:
+    """max/min/unique/distinct over a list of TEXT values (pooled): lexicographic extremes, ties, repeats."""
+    from crosshair import realize
+    k = realize(k)
+    n = len(TEXTS)
+    vals = [TEXTS[k % n], TEXTS[(k // n) % n], TEXTS[(k // (n * n)) % n]]
+    lst = cseq(*vals)
+    doc = cmap(("l", lst))
+    path = "l[" + ("!" if inv else "") + kw + "()]"
+    note(values=vals, path=path)
+    proc = Processor(LOG, doc)
+    try:
+        got = _pos(proc, path, lst)
+    except YAMLPathException:
+        got = []
+    if kw in ("max", "min"):
+        want = _want_extreme(vals, kw == "max", inv)
+    elif kw == "unique":
+        want = [i for i, v in enumerate(vals) if (_count(vals, v) > 1) == inv]
+    else:
+        want = [i for i, v in enumerate(vals) if v not in vals[:i]]
+    note(observed=got, expected=sorted(want))
+    return got == sorted(want)
+
+
 def has_child_hash(inv: bool, has: bool, a: int) -> bool:
     """h[has_child(v)] on a single hash yields the hash itself exactly when it has (lacks, inverted) the key."""
     h = cmap(("n", 1))
@@ -293,6 +321,13 @@ def shards(tier, seed):
                                  ["-1 <= a <= 1 and -1 <= b <= 1"], family="nullattr", budget=900,
                                  desc="[%s%s(v)] where v is present but null in some members (%s)" % (
                                      "!" if inv else "", kw, "hash of hashes" if hoh else "Array-of-Hashes")))
+    for kw, invs in (("max", (False, True)), ("min", (False, True)), ("unique", (False, True)), ("distinct", (False,))):
+        for inv in invs:
+            if tier == "quick" and (inv or kw == "distinct"):
+                continue
+            out.append(shard(PID, "text/%s%s" % ("not_" if inv else "", kw), "harness.c13", "list_kw_text(%r, %r, k)" % (kw, inv),
+                             [("k", "int")], ["0 <= k < 125"], family="text", budget=900, kind="S",
+                             desc="l[%s%s()] over three text values from a pool of 5 (selector)" % ("!" if inv else "", kw)))
     out.append(shard(PID, "has_child/hash", "harness.c13", "has_child_hash(inv, has, a)",
                      [("inv", "bool"), ("has", "bool"), ("a", "int")], ["-9 <= a <= 9"], family="has_child", budget=300,
                      desc="h[has_child(v)] / inverted on one hash"))
